@@ -229,8 +229,8 @@ def rule_ns_charcfg(P):
         return okn
 
     sites = [c for c in _adds(f) if W.is_name(c.func.value, res) and len(c.args) >= 2]
-    if len(sites) < 6:
-        raise AnalysisError("_char_cfg: expected at least 6 add sites")
+    if len(sites) < 4:
+        raise AnalysisError("_char_cfg: expected at least 4 add sites")
     for c in sites:
         bad = [norm(a) for a in c.args[1:] if not (wrapped(a, c) or from_named_fsa(a, c))]
         ok = not bad
@@ -239,7 +239,7 @@ def rule_ns_charcfg(P):
     asserts = [n for n in walk_live(f.node) if isinstance(n, ast.Assert) and f"{res}.N & {res}.V" in norm(n.test)]
     ok = len(asserts) == 1
     r.add(f, asserts[0] if asserts else f.node, ok, "" if ok else "the N ∩ V = ∅ assertion before returning is gone", construct="assert N ∩ V = ∅")
-    r.min_instances = 7
+    r.min_instances = 5
     return r
 
 
@@ -348,7 +348,7 @@ def rule_looppair(P):
                 miss = "; guards that differ: " + ", ".join(sorted(d))
         for e in es:
             wt = e.args[-1]
-            okw = norm(wt) == f"1 / {kname}"
+            okw = W.cnorm(f.node, wt, e) == f"1 / {kname}"
             r.add(f, e, ok and okw,
                   "" if ok and okw else (f"`{first_line(e)}` is emitted for iterations that the fan-out count did not count{miss}: the "
                                          f"state's outgoing mass is not 1" if not ok else f"weight `{norm(wt)}` is not 1/{kname}"),
